@@ -45,32 +45,54 @@ def _sentinel(body, field, cls):
     return LIMITS[key]
 
 
+def _from_bits(tok):
+    import struct
+    return Fraction(struct.unpack('<d', struct.pack('<Q', int(tok, 16)))[0])
+
+
 @X.gen('Histogram')
 def gen_histogram(repo):
-    cc = X._strip_comments(X._read(repo, CC))
     hh = X._strip_comments(X._read(repo, HH))
-    cfg = X._strip_comments(X._read(repo, CFG))
+    # OBSERVED, not parsed: what a fresh Long/DoubleHistogramAggregation(nullptr) and a default HistogramAggregationConfig
+    # hold (harness/p_hist.cc compiled from the working tree) - however the constructors spell it
+    obs = {}
+    for ln in X.probe(repo, 'harness/p_hist.cc', sdk_srcs=[CC]).splitlines():
+        t = ln.split()
+        if len(t) >= 2:
+            obs[(t[0], t[1])] = t[2:]
     out = [X.HDR, 'namespace Otel.Gen\n']
-    for cls, pre in (('LongHistogramAggregation', 'histLong'), ('DoubleHistogramAggregation', 'histDouble')):
-        body = _ctor_body(cc, cls)
-        m = X._one(r'else\s*\{\s*point_data_\.boundaries_\s*=\s*\{([^}]*)\}\s*;', body, f'{cls}: default boundaries')
-        bs = [_double_literal(t) for t in m.group(1).split(',') if t.strip()]
-        out.append(f'/-- default boundaries of `{cls}` (no HistogramAggregationConfig) -/\n'
-                   f'def {pre}DefaultBoundaries : List Rat := [{", ".join(lean_rat(b) for b in bs)}]\n')
-        out.append(f'/-- initial `point_data_.min_` / `max_` of `{cls}` -/\n'
-                   f'def {pre}MinInit : Rat := {lean_rat(_sentinel(body, "min_", cls))}\n'
-                   f'def {pre}MaxInit : Rat := {lean_rat(_sentinel(body, "max_", cls))}\n')
-        if not re.search(r'counts_\s*=\s*std::vector<uint64_t>\s*\(\s*point_data_\.boundaries_\.size\(\)\s*\+\s*1\s*,\s*0\s*\)', body):
-            raise X.ExtractError(f'{cls}: counts_ is no longer boundaries_.size() + 1 zeros')
-        # class member default `bool record_min_max_ = true;`
-        c = X._one(r'class\s+' + cls + r'\b.*?\n\};', hh, f'class {cls}').group(0)
-        d = X._one(r'bool\s+record_min_max_\s*=\s*(true|false)\s*;', c, f'{cls}::record_min_max_ default').group(1)
-        out.append(f'def {pre}RecordMinMaxDefault : Bool := {d}\n')
-    d = X._one(r'class\s+HistogramAggregationConfig\b.*?bool\s+record_min_max_\s*=\s*(true|false)\s*;', cfg,
-               'HistogramAggregationConfig::record_min_max_ default').group(1)
-    out.append(f'def histConfigRecordMinMaxDefault : Bool := {d}\n')
-    if not re.search(r'std::lower_bound\s*\(\s*boundaries\.begin\(\)\s*,\s*boundaries\.end\(\)\s*,\s*value\s*\)', hh):
-        raise X.ExtractError('BucketBinarySearch is no longer std::lower_bound(boundaries.begin(), boundaries.end(), value)')
+    try:
+        for cls, pre, tag in (('LongHistogramAggregation', 'histLong', 'long'), ('DoubleHistogramAggregation', 'histDouble', 'double')):
+            bs = [_from_bits(t) for t in obs[(tag, 'boundaries')]]
+            if int(obs[(tag, 'counts')][0]) != len(bs) + 1:
+                raise X.ExtractError(f'{cls}: a fresh aggregation has {obs[(tag, "counts")][0]} buckets for {len(bs)} boundaries')
+            mn, mx = obs[(tag, 'min')][0], obs[(tag, 'min')][2]
+            q = (lambda t: Fraction(int(t))) if tag == 'long' else _from_bits
+            out.append(f'/-- default boundaries of `{cls}` (no HistogramAggregationConfig) -/\n'
+                       f'def {pre}DefaultBoundaries : List Rat := [{", ".join(lean_rat(b) for b in bs)}]\n')
+            out.append(f'/-- initial `point_data_.min_` / `max_` of `{cls}` -/\n'
+                       f'def {pre}MinInit : Rat := {lean_rat(q(mn))}\n'
+                       f'def {pre}MaxInit : Rat := {lean_rat(q(mx))}\n')
+            out.append(f'def {pre}RecordMinMaxDefault : Bool := {"true" if obs[(tag, "record_min_max")][0] == "1" else "false"}\n')
+        out.append(f'def histConfigRecordMinMaxDefault : Bool := {"true" if obs[("config", "record_min_max")][0] == "1" else "false"}\n')
+    except (KeyError, IndexError, ValueError) as e:
+        raise X.ExtractError(f'harness/p_hist.cc printed something unexpected: {e!r}')
+    if not re.search(r'std::(lower_bound|partition_point)\s*\(\s*boundaries\.begin\(\)\s*,\s*boundaries\.end\(\)\s*,', hh):
+        raise X.ShapeChanged('BucketBinarySearch is no longer a std::lower_bound / std::partition_point over the boundaries')
+    # the int64_t overload: std::lower_bound with the exact comparator BucketBoundaryLessThan(double, int64_t)
+    ov = X._one(r'size_t\s+BucketBinarySearch\s*\(\s*int64_t\s+value\s*,[^)]*\)\s*\{(.*?)\n\}', hh,
+                'BucketBinarySearch(int64_t, ...) overload (exact comparison of int64 values with double boundaries)').group(1)
+    cm = X._one(r'std::lower_bound\s*\(\s*boundaries\.begin\(\)\s*,\s*boundaries\.end\(\)\s*,\s*value\s*,\s*(\w+)\s*\)', ov,
+                'BucketBinarySearch(int64_t): std::lower_bound with a comparator').group(1)
+    cb = X._one(r'bool\s+' + cm + r'\s*\(\s*double\s+(\w+)\s*,\s*int64_t\s+(\w+)\s*\)\s*(?:noexcept\s*)?\{(.*?)\n\}', hh, f'comparator {cm}')
+    bn, vn, body = cb.group(1), cb.group(2), cb.group(3)
+    hi = X._one(r'if\s*\(\s*!\s*\(\s*' + bn + r'\s*<\s*([-+0-9.eE]+)\s*\)\s*\)\s*\{?\s*return\s+false\s*;', body, f'{cm}: upper guard').group(1)
+    lo = X._one(r'if\s*\(\s*' + bn + r'\s*<\s*([-+0-9.eE]+)\s*\)\s*\{?\s*return\s+true\s*;', body, f'{cm}: lower guard').group(1)
+    if not re.search(r'return\s+static_cast<\s*int64_t\s*>\s*\(\s*(?:std::)?floor\s*\(\s*' + bn + r'\s*\)\s*\)\s*<\s*' + vn + r'\s*;', body):
+        raise X.ShapeChanged(f'{cm}: the in-range branch is no longer static_cast<int64_t>(floor(boundary)) < value')
+    out.append('/-- guards of the exact comparator of the int64_t overload of BucketBinarySearch -/\n'
+               f'def histLongCmpHi : Rat := {lean_rat(_double_literal(hi))}\n'
+               f'def histLongCmpLo : Rat := {lean_rat(_double_literal(lo))}\n')
     out.append('/-- finite range of an IEEE binary64 -/\n' f'def dblMax : Rat := {lean_rat(DBL_MAX)}\n')
     out.append('end Otel.Gen\n')
     return '\n'.join(out)
